@@ -68,13 +68,14 @@ PURE_MODULE_NAMES = {"reduce": _functools.reduce, "partial": _functools.partial,
                      "dropwhile": _itertools.dropwhile, "groupby": _itertools.groupby, "tee": _itertools.tee,
                      "combinations": _itertools.combinations, "permutations": _itertools.permutations,
                      "pairwise": getattr(_itertools, "pairwise", None), "itemgetter": _operator.itemgetter,
-                     "attrgetter": _operator.attrgetter}
+                     "attrgetter": _operator.attrgetter, "methodcaller": _operator.methodcaller}
 
 
 def _is_pure_callable(f):
     mod = getattr(f, "__module__", None) or getattr(getattr(f, "__self__", None), "__module__", None)
     return callable(f) and (mod in ("operator", "_operator", "itertools", "functools", "_functools")
-                            or isinstance(f, (_functools.partial, _operator.itemgetter, _operator.attrgetter))
+                            or isinstance(f, (_functools.partial, _operator.itemgetter, _operator.attrgetter,
+                                              _operator.methodcaller))
                             or getattr(f, "__self__", None) is _itertools.chain)
 
 
@@ -488,6 +489,18 @@ class Ev:
                     return getattr(recv, e.func.attr)(*args, **kwargs)
             if isinstance(e.func, ast.Name) and getattr(self.env.get(e.func.id), "_ev_closure", False):
                 return self.env[e.func.id](*args, **kwargs)          # local function / lambda bound to a name
+            if isinstance(e.func, ast.Name) and e.func.id == "getattr" and 2 <= len(args) <= 3 and isinstance(args[1], str):
+                obj, attr = args[0], args[1]
+                if hasattr(obj, "__dict__") and attr in getattr(obj, "__dict__", {}):
+                    return obj.__dict__[attr]
+                if hasattr(type(obj), attr) and not attr.startswith("__"):
+                    return getattr(obj, attr)                        # a method of a stand-in object
+                try:                                                 # as the attribute access obj.<attr>
+                    return self.ev(ast.copy_location(ast.Attribute(value=e.args[0], attr=attr, ctx=ast.Load()), e))
+                except Undecided:
+                    if len(args) == 3:
+                        return args[2]
+                    raise Undecided(f"getattr(.., {attr!r})")
             if isinstance(e.func, (ast.Name, ast.Attribute)):
                 try:
                     fv = self.ev(e.func)
@@ -495,6 +508,13 @@ class Ev:
                     fv = None
                 if fv is not None and _is_pure_callable(fv):
                     return fv(*args, **kwargs)                       # operator.add, reduce, chain.from_iterable ...
+            if isinstance(e.func, (ast.Call, ast.Subscript, ast.IfExp)):
+                fv = self.ev(e.func)                                 # getattr(obj, name)(..), table[key](..)
+                if getattr(fv, "_ev_closure", False) or _is_pure_callable(fv) or (
+                        callable(fv) and getattr(getattr(fv, "__self__", None), "__class__", None) is not None
+                        and not isinstance(getattr(fv, "__self__", None), type(_operator))):
+                    return fv(*args, **kwargs)
+                raise Undecided("call of a computed value " + U(e.func)[:40])
             if isinstance(e.func, ast.Attribute) and e.func.attr in NUMBER_METHODS:
                 recv = self.ev(e.func.value)
                 if isinstance(recv, (int, float, Fr)) and not isinstance(recv, bool) and hasattr(recv, e.func.attr):
